@@ -19,11 +19,12 @@ import Handlers.HC18
 import Handlers.HC09
 import Handlers.HC05N
 import Handlers.HC12N
+import Handlers.HC04N
 
 namespace Handlers
 
 def all : List (String × (List Nat → Option String)) :=
   hC04 ++ hC06 ++ hC07 ++ hC08 ++ hC13 ++ hC14 ++ hC15 ++ hC16 ++ hC17 ++ hC19 ++ hC02 ++ hC11 ++ hC18
-    ++ hC09 ++ hC05N ++ hC12N
+    ++ hC09 ++ hC05N ++ hC12N ++ hC04N
 
 end Handlers
